@@ -438,6 +438,12 @@ def run(run, model):
     run.try_rule(r04_5, model, mir)
     run.try_rule(r04_16, model, mir)
     run.try_rule(r04_17, model)
+    from rules import c17 as _c17
+    run.rule("R04.20", "the by-name lowering of builtins cannot meet a user function of that name (shared with C16 R16.8): define_function "
+                       "rejects a name that is already in the function table; otherwise `fn vec_get(x: int32)` reaches the back end's "
+                       "`args_iter.next().unwrap()`")
+    run.try_rule(lambda r, m: _c17.unique_definition(r, m, "R04.20", "define_function", ".funcs", "function table",
+                 "fn vec_get(x: int32) -> int32 { x + 1 } plus a call: the typer accepts it, go::compile panics (unwrap on None)"), model)
     run.try_rule(r04_18, model)
     run.try_rule(r04_7, model)
     run.try_rule(r04_8, model)
